@@ -1,4 +1,9 @@
 use serde::{Deserialize, Serialize};
+#[cfg(feature = "verif")]
+use crate::verif::AtomicU64;
+#[cfg(feature = "verif")]
+use std::sync::atomic::Ordering;
+#[cfg(not(feature = "verif"))]
 use std::sync::atomic::{AtomicU64, Ordering};
 use uuid::Uuid;
 
@@ -81,6 +86,14 @@ impl UuidGenerator {
         let name = counter.to_string();
         // Generate a UUID v5 (name-based) using the namespace and counter
         Uuid::new_v5(&self.namespace, name.as_bytes())
+    }
+}
+
+#[cfg(feature = "verif")]
+impl UuidGenerator {
+    /// Address of the counter, as passed to the verification hook.
+    pub fn verif_counter_addr(&self) -> usize {
+        self.counter.verif_addr()
     }
 }
 
